@@ -60,8 +60,13 @@ void check_solve(const Dense &Aeff, bool etrans, const std::vector<int> &perm_r,
                  const std::vector<cld> &B, const std::vector<cld> &X, int nrhs, int prec, std::vector<std::string> &errs, ld *max_ratio);
 
 // componentwise relative backward error of X for op(A) X = B  (Oettli-Prager), per column
-std::vector<ld> true_berr(const Dense &Aeff, const std::vector<cld> &B, const std::vector<cld> &X, int nrhs);
+std::vector<ld> true_berr(const Dense &Aeff, const std::vector<cld> &B, const std::vector<cld> &X, int nrhs, bool use_abs1 = false);
 
 // structural rank of the leading k columns for every k (Hopcroft-Karp would be overkill at these sizes: augmenting paths)
 // returns the smallest k (1-based) such that the first k columns (in the given column order) have structural rank < k, or 0
 long first_struct_deficient(const Mat &M, const std::vector<int> &col_order);
+
+// Symbolic elimination of the nonzero-value pattern following the library's own row choices: returns the first
+// position j (0-based, in col_order) whose candidate set is structurally empty given the pivots of positions < j
+// (an exact zero is then guaranteed in floating point), or -1.  perm_r entries that are not usable end the search.
+long first_symbolic_empty(const Mat &nzpattern, const std::vector<int> &col_order, const std::vector<int> &perm_r);
